@@ -90,6 +90,29 @@ WRITTEN = [
     ("Select(ds, lambda e: {e.a: 1, 'k': e.b}['k'])", False), ("Select(ds, lambda e: {e.a: 1, e.b: 2}[e.a])", False),
     ("Select(Select(ds, lambda e: {'a': e.a, 'a': e.b}), lambda d: d.a)", False),
     ("Select(ds, lambda e: (e.a, e.b)[True])", False), ("Select(ds, lambda e: [e.a, e.b][False])", False),
+    # lambdas with unusual signatures meeting the fusion rules (python accepts a call with one argument for each of them)
+    ("SelectMany(SelectMany(ds, lambda *a: a[0].jets), lambda j: j.tr)", False),
+    ("Select(SelectMany(ds, lambda *a: a[0].jets), lambda j: j.pt)", False),
+    ("Where(Select(ds, lambda *a: a[0].a), lambda v: v > 0)", False),
+    ("Select(Select(ds, lambda e, /: e.a), lambda v: v + 1)", False),
+    ("Select(Select(ds, lambda e, w=20: e.a + w), lambda x: x + 1)", False),
+    ("SelectMany(SelectMany(ds, lambda e, w=20: e.jets), lambda j, k=1: Select(j.tr, lambda t: t.q + k))", False),
+    ("Select(Where(ds, lambda e, *, w=0: e.a > w), lambda x: x.a)", False),
+    ("Where(Where(ds, lambda e, w=0: e.a > w), lambda x, v=3: x.a < v)", False),
+    ("Select(Select(ds, lambda e, /: e), lambda v, /: v.a)", False),
+    ("First(Select(ds, lambda *a: (a[0].a, 1)))[0]", False),
+]
+
+
+SHAPES = [
+    "Select(ds, selection=lambda e: e.a)", "Select(ds)", "Select(ds, lambda e: e.a, 1)", "Select(ds, f)", "Select()",
+    "Where(ds, filter=lambda e: e.a > 1)", "Where(ds, lambda e: True, 1)", "Where(ds, lambda e: e.a > 1, strict=True)",
+    "SelectMany(ds, f)", "SelectMany(ds, lambda e: e.jets, 2)", "Select(Select(ds, f), lambda x: x + 1)",
+    "Select(Select(ds, lambda e: e.a, 1), lambda x: x + 1)", "Where(Select(ds, selection=lambda e: e.a), lambda x: x > 1)",
+    "SelectMany(Select(ds, lambda e: e.jets, k=1), lambda j: j)", "Select(Where(ds, lambda e: e.a > 1, 1), lambda e: e.a)",
+    "First(ds, 1).a", "First(ds, default=0).a", "First(ds, 1)[0]", "First().a", "First(Select(ds, lambda e: (e.a, 1)), 0)[0]",
+    "First(ds, 1).m(2)", "Select(ds, *fs)", "Select(*args)", "Select(ds, lambda e: First(e.jets, 1).pt)",
+    "Select(Select(ds, lambda e: e.jets), lambda js: Select(js, g))",
 ]
 
 
@@ -135,7 +158,43 @@ class C18(Check):
                                                           "lambda, a fused stage, First), starred elements, dictionary spreads, duplicate and "
                                                           "equal-but-differently-typed keys, non-constant keys"},
                          [(s, oor) for s, oor in WRITTEN], runner="run_odd"))
+        out.append(Space("operator calls of another shape", {"cases": len(SHAPES), "oracle": "a Select / SelectMany / Where / First call with keyword "
+                                                            "arguments, another number of arguments or a non-lambda argument is none of the rewrite "
+                                                            "rules' business: the result must be well formed and still hold a call of that name with "
+                                                            "the same number of positional arguments and the same keywords"},
+                         SHAPES, runner="run_shape"))
         return out
+
+    def run_shape(self, src):
+        q = qsem.parse_expr(src)
+        res = {"n": 1, "nt": [src], "oc": [], "tags": {}, "viol": []}
+        st, r = self._simplify(q)
+        if st != "ok":
+            res["oc"].append(st)
+            res["viol"].append({"kind": ("raised:" + r.split(":")[0]) if st == "raised" else st, "canon": src, "msg": str(r)[:200]})
+            return res
+        wf = wellformed(r)
+        if wf:
+            res["oc"].append(wf[0])
+            res["viol"].append({"kind": wf[0], "canon": src, "msg": wf[1][:200]})
+            return res
+
+        def odd_calls(t):
+            out = []
+            for n in ast.walk(t):
+                if isinstance(n, ast.Call) and isinstance(n.func, ast.Name) and n.func.id in ("Select", "SelectMany", "Where", "First"):
+                    std = (len(n.args) == (1 if n.func.id == "First" else 2)) and not n.keywords and \
+                        (n.func.id == "First" or isinstance(n.args[1], ast.Lambda))
+                    if not std:
+                        out.append((n.func.id, len(n.args), tuple(k.arg for k in n.keywords)))
+            return sorted(out)
+        if odd_calls(q) != odd_calls(r):
+            res["oc"].append("arguments-lost")
+            res["viol"].append({"kind": "operator-call-of-another-shape-changed", "canon": src,
+                                "msg": f"{odd_calls(q)} became {odd_calls(r)}: {ast.unparse(r)[:200]}"})
+            return res
+        res["oc"].append("shape-kept")
+        return res
 
     def _simplify(self, q):
         from func_adl.ast.function_simplifier import FuncADLIndexError, simplify_chained_calls
